@@ -28,10 +28,11 @@ type c04RealSpec struct {
 	skipMid bool   // one more stage, with a false condition, between the root and one of the stages
 	inter   bool   // the tasks are declared interactive
 	same    bool   // ONE task (one name, one *task.Task) used by all k stages, told apart by the stage's env
+	where   string // "" the tasks meet in their command; "before" / "after": in that hook of the task, after printing a line
 }
 
 func (s c04RealSpec) line() string {
-	return fmt.Sprintf("barrier k=%d ctx=%s root=%v hooks=%v skipMid=%v interactive=%v one-task-in-all-stages=%v", s.k, s.ctx, s.root, s.hooks, s.skipMid, s.inter, s.same)
+	return fmt.Sprintf("barrier k=%d ctx=%s root=%v hooks=%v skipMid=%v interactive=%v one-task-in-all-stages=%v meet-in=%q", s.k, s.ctx, s.root, s.hooks, s.skipMid, s.inter, s.same, s.where)
 }
 
 func c04RealCase(col *Collector, s c04RealSpec) {
@@ -42,6 +43,8 @@ func c04RealCase1(col *Collector, s c04RealSpec) {
 	dir := newScratchDir("c04r")
 	defer os.RemoveAll(dir)
 	cs := Case{Replay: s.line(), Tags: []string{"real-runner", "ctx=" + s.ctx, fmt.Sprintf("k=%d", s.k)}, NonTrivial: true}
+	metDir := newScratchDir("c04m")
+	defer os.RemoveAll(metDir)
 	ctxs := map[string]*runner.ExecutionContext{}
 	hook := []string(nil)
 	if s.hooks {
@@ -89,9 +92,19 @@ func c04RealCase1(col *Collector, s c04RealSpec) {
 		cmd := fmt.Sprintf("touch %s/in.%s; i=0; while [ \"$(ls %s | wc -l)\" -lt %d ]; do i=$((i+1)); if [ $i -gt 300 ]; then exit 7; fi; sleep 0.02; done",
 			dir, name, dir, s.k)
 		t := task.FromCommands(cmd)
+		if s.where != "" {
+			// the hook prints first, then announces itself and waits for the others; on success it leaves met.<name>
+			t = task.FromCommands("true")
+			meet := fmt.Sprintf("echo %s is here; %s; touch %s/met.%s", name, cmd, metDir, name)
+			if s.where == "before" {
+				t.Before = []string{meet}
+			} else {
+				t.After = []string{meet}
+			}
+		}
 		t.Name = name
 		t.Interactive = s.inter
-		if s.hooks {
+		if s.hooks && s.where == "" {
 			t.Before = []string{"true"}
 		}
 		switch s.ctx {
@@ -144,6 +157,10 @@ func c04RealCase1(col *Collector, s c04RealSpec) {
 		}
 	}
 	announced, _ := filepath.Glob(filepath.Join(dir, "in.*"))
+	if met, _ := filepath.Glob(filepath.Join(metDir, "met.*")); s.where != "" && len(met) < s.k && serr == nil && len(notDone) == 0 {
+		// a failing "after" hook does not fail its task: the hooks that met say so themselves
+		serr = fmt.Errorf("only %d of the %d %q hooks saw all the others", len(met), s.k, s.where)
+	}
 	cs.Impl = fmt.Sprintf("together=%v", len(notDone) == 0 && serr == nil)
 	if cs.Fail == "" && (len(notDone) > 0 || serr != nil) {
 		cs.Fail = fmt.Sprintf("%d stages with no dependency between them were eligible together but never all ran at the same time: %d announced themselves, %d gave up waiting for the others (err=%v)",
@@ -165,6 +182,8 @@ func runC04Real(col *Collector, tier string, seed int64) {
 	specs = append(specs, c04RealSpec{k: 3, ctx: "none", inter: true}, c04RealSpec{k: 2, ctx: "shared", inter: true, hooks: true})
 	// one task used by every stage (a normal configuration: the stages differ in their env / variables)
 	specs = append(specs, c04RealSpec{k: 2, ctx: "none", same: true}, c04RealSpec{k: 4, ctx: "shared", same: true, root: true}, c04RealSpec{k: 3, ctx: "none", same: true, inter: true})
+	// the stages meet in a hook of their tasks (which prints a line first) instead of the command
+	specs = append(specs, c04RealSpec{k: 2, ctx: "none", where: "before"}, c04RealSpec{k: 3, ctx: "shared", where: "after", root: true}, c04RealSpec{k: 4, ctx: "own", where: "before", hooks: true})
 	// wider than the number of CPUs: nothing may tie the number of simultaneous commands to it
 	specs = append(specs, c04RealSpec{k: wide, ctx: "none", root: true}, c04RealSpec{k: wide, ctx: "shared", hooks: true})
 	if tier == "thorough" {
